@@ -1093,6 +1093,7 @@ impl Case {
             match c {
                 Chunking::Whole => vec![],
                 Chunking::One => vec![Chunking::Whole],
+                Chunking::Fixed(_) => vec![Chunking::Whole, Chunking::One],
                 Chunking::Random(_) => vec![Chunking::Whole, Chunking::One],
                 Chunking::RandomEintr(s) => {
                     vec![Chunking::Whole, Chunking::One, Chunking::Random(s)]
